@@ -44,6 +44,7 @@ pub fn requirements(tier: Tier) -> Vec<(&'static str, u64)> {
         ("documented-panic:display-invalid-type", 100),
         ("empty-checksum-serialised", 100),
         ("large-builder-values", 32),
+        ("name-rule-and-combined-name-cases", 100_000),
     ]
 }
 
@@ -566,6 +567,46 @@ pub fn run(ctx: &mut Ctx) {
             documented_panics(ctx, &mut r);
         }
     }
+    // name rules and combined names with hostile text (byte-offset arithmetic lives there)
+    let mut r = ctx.rng("c06.names");
+    for i in 0..ctx.share(150_000, 4_000_000) {
+        let h = super::values::name_hist(&mut r);
+        watch(ctx.worker, GEN_HIST, 2_000_000 + i);
+        let mut f = exercise_hist_all(&h, true);
+        // the same name through the parser, percent-encoded
+        let enc: String = h.name.bytes().map(|b| format!("%{b:02X}")).collect();
+        let s = format!("pkg:{}/g/{enc}", h.ty);
+        if f.is_none() {
+            f = exercise_string(&s).1;
+        }
+        // and as a combined name with separators at hostile places
+        let mut comb = gen::mixed_string(&mut r, 0, 12, 50);
+        for _ in 0..r.below(4) {
+            let mut pos = r.below(comb.len() + 1);
+            while !comb.is_char_boundary(pos) {
+                pos -= 1;
+            }
+            comb.insert(pos, *r.pick(&['/', ':']));
+        }
+        if f.is_none() {
+            if let Out::Panic(m) = guard("builder_with_combined_name", || {
+                for t in exec::ALL_TYPES {
+                    if let Ok(p) = purl::Purl::builder_with_combined_name(t, comb.as_str()).build() {
+                        let _ = p.combined_name().len() + p.to_string().len();
+                    }
+                }
+            }) {
+                let loc = m.rsplit(" @ ").next().unwrap_or("?").to_string();
+                f = Some(Fail::tagged("panicked", loc, format!("builder_with_combined_name / combined_name on {comb:?}: {m}")));
+            }
+        }
+        unwatch(ctx.worker);
+        ctx.st.evaluations += 3;
+        ctx.st.count("name-rule-and-combined-name-cases");
+        if let Some(f) = f {
+            ctx.st.violation("C06.panic", format!("C06.panic:{}:{}", f.kind, f.tag), f.detail, json!({"kind": "names", "history": h, "string": s, "combined": comb}));
+        }
+    }
     // qualifier-collection histories with hostile keys and values
     let mut r = ctx.rng("c06.g5");
     for i in 0..ctx.share(20_000, 600_000) {
@@ -704,6 +745,23 @@ pub fn replay(_monitor: &str, case: &Value) -> Result<Option<Fail>, String> {
             _ => None,
         }),
         "documented" => Ok(None),
+        "names" => {
+            let h: Hist = serde_json::from_value(case.get("history").cloned().unwrap_or(Value::Null)).map_err(|e| e.to_string())?;
+            let comb = str_field(case, "combined")?.to_string();
+            let mut f = exercise_hist_all(&h, true).or_else(|| exercise_string(str_field(case, "string").unwrap_or("")).1);
+            if f.is_none() {
+                if let Out::Panic(m) = guard("builder_with_combined_name", || {
+                    for t in exec::ALL_TYPES {
+                        if let Ok(p) = purl::Purl::builder_with_combined_name(t, comb.as_str()).build() {
+                            let _ = p.combined_name().len();
+                        }
+                    }
+                }) {
+                    f = Some(Fail::new("panicked", m));
+                }
+            }
+            Ok(f)
+        },
         o => Err(format!("unknown case kind {o}")),
     }
 }
